@@ -68,9 +68,9 @@ theorem Inv2_clear {c : Conf} {s : State} {A B : List Lease} {l : Lease}
 theorem Inv2_add {c : Conf} {s s' : State} {l : Lease} (h : Inv2 c s)
     (hadd : addLease c l s = .ok s')
     (hip : ∀ y ∈ s.leases, y.ip ≠ l.ip) (hmac : ∀ y ∈ s.leases, y.mac ≠ l.mac)
-    (hlen : l.mac.length = 6) (hidlt : l.id < s.nextId) (hidfresh : ∀ y ∈ s.leases, y.id ≠ l.id) :
+    (hidlt : l.id < s.nextId) (hidfresh : ∀ y ∈ s.leases, y.id ≠ l.id) :
     Inv2 c s' := by
-  refine ⟨Inv_add h.1 hadd hip hmac hlen hidlt hidfresh, ?_⟩
+  refine ⟨Inv_add h.1 hadd hip hmac hidlt hidfresh, ?_⟩
   have hfree : l.host ≠ [] → s.hosts l.host = none := by
     intro hne
     unfold addLease at hadd
@@ -99,9 +99,9 @@ theorem Inv2_add {c : Conf} {s s' : State} {l : Lease} (h : Inv2 c s)
   · rw [if_pos hne, setFn_same]
 
 theorem Inv2_setMac {c : Conf} {s : State} {A B : List Lease} {l : Lease} (m : Bytes)
-    (h : Inv2 c { s with leases := A ++ l :: B }) (hlen : m.length = 6) (hm : ∀ y ∈ A ++ B, y.mac ≠ m) :
+    (h : Inv2 c { s with leases := A ++ l :: B }) (hm : ∀ y ∈ A ++ B, y.mac ≠ m) :
     Inv2 c { s with leases := A ++ { l with mac := m } :: B } := by
-  refine ⟨Inv_setMac m h.1 hlen hm, ?_⟩
+  refine ⟨Inv_setMac m h.1 hm, ?_⟩
   intro y hy hne
   rcases mem_middle.1 hy with rfl | hy'
   · exact h.2 l (mem_middle.2 (.inl rfl)) hne
@@ -238,7 +238,7 @@ theorem rmDynLoop_frees_name (c : Conf) (mac : Bytes) (ip : Nat) (host : Bytes) 
 
 /-! ### operations -/
 
-theorem allocate_inv2 {c : Conf} {s : State} {mac : Bytes} (h : Inv2 c s) (hlen : mac.length = 6)
+theorem allocate_inv2 {c : Conf} {s : State} {mac : Bytes} (h : Inv2 c s)
     (hmac : ∀ y ∈ s.leases, y.mac ≠ mac) :
     Inv2 c (allocateLease c mac s).1 ∧ (allocateLease c mac s).1.hosts = s.hosts := by
   unfold allocateLease
@@ -251,15 +251,14 @@ theorem allocate_inv2 {c : Conf} {s : State} {mac : Bytes} (h : Inv2 c s) (hlen 
       simp only []
       obtain ⟨hl, _, _⟩ := findExpired_some hf
       obtain ⟨A, B, hs⟩ := List.append_of_mem hl
-      have hcp : copyInto l.mac mac = mac := copyInto_len6 (h.1.macLen l hl) hlen
-      have hupd : (s.update l.id (fun x => { x with mac := copyInto x.mac mac })) =
+      have hupd : (s.update l.id (fun x => { x with mac := mac })) =
           { s with leases := A ++ { l with mac := mac } :: B } := by
         unfold State.update
-        rw [hs, mapId_split (by rw [← hs]; exact h.1.idNodup), hcp]
+        rw [hs, mapId_split (by rw [← hs]; exact h.1.idNodup)]
       have h' : Inv2 c { s with leases := A ++ l :: B } := by rw [← hs]; exact h
       have hAB : ∀ y ∈ A ++ B, y.mac ≠ mac := fun y hy => hmac y (by rw [hs]; exact mem_middle.2 (.inr hy))
       rw [hupd]
-      exact ⟨Inv2_setMac mac h' hlen hAB, rfl⟩
+      exact ⟨Inv2_setMac mac h' hAB, rfl⟩
   | some ip =>
     simp only []
     unfold nextIP at hn
@@ -282,7 +281,7 @@ theorem allocate_inv2 {c : Conf} {s : State} {mac : Bytes} (h : Inv2 c s) (hlen 
         simp [hoff]
       rw [hadd]
       simp only []
-      refine ⟨Inv2_add (Inv2_fresh h) hadd hfree hmac hlen (by simp [State.fresh]) ?_, ?_⟩
+      refine ⟨Inv2_add (Inv2_fresh h) hadd hfree hmac (by simp [State.fresh]) ?_, ?_⟩
       · intro y hy
         have : y.id < s.nextId := h.1.idLt y hy
         show y.id ≠ s.nextId
@@ -312,14 +311,14 @@ def R3at (O : Oracle) (c : Conf) (s : State) : Op → Prop
       (s.hosts (validHost O hn l.ip)).isSome = true ∧ ∃ id, s.hosts (genHost l.ip) = some id ∧ id ≠ l.id
   | _ => False
 
-theorem handleDiscover_inv2 {c : Conf} {s : State} {mac : Bytes} (h : Inv2 c s) (hlen : mac.length = 6) :
+theorem handleDiscover_inv2 {c : Conf} {s : State} {mac : Bytes} (h : Inv2 c s) :
     Inv2 c (handleDiscover c mac s).1 := by
   unfold handleDiscover
   cases hf : findLease mac s with
   | some l => exact Inv2_store h
   | none =>
     simp only []
-    have hsp := (allocate_inv2 h hlen (findLease_none hf)).1
+    have hsp := (allocate_inv2 h (findLease_none hf)).1
     rcases hal : allocateLease c mac s with ⟨s1, r⟩
     rw [hal] at hsp
     rcases r with _ | _ | l <;> exact Inv2_store hsp
@@ -360,8 +359,7 @@ theorem handleRequest_inv2 {O : Oracle} {c : Conf} {s : State} {mac : Bytes} {si
         | none => exact .inr (.inl rfl)
         | some _ => exact absurd (by simp [hv]) htaken
 
-theorem handleDecline_inv2 {c : Conf} {s : State} {mac : Bytes} {rp : Bool} {rip ci : Nat} (h : Inv2 c s)
-    (hlen : mac.length = 6) : Inv2 c (handleDecline c mac rp rip ci s).1 := by
+theorem handleDecline_inv2 {c : Conf} {s : State} {mac : Bytes} {rp : Bool} {rip ci : Nat} (h : Inv2 c s) : Inv2 c (handleDecline c mac rp rip ci s).1 := by
   unfold handleDecline
   simp only []
   cases hf : s.leases.find? (fun l => l.mac == mac && l.ip == msgIP rp rip ci) with
@@ -389,8 +387,8 @@ theorem handleDecline_inv2 {c : Conf} {s : State} {mac : Bytes} {rp : Bool} {rip
       have hname : s1.hosts old.host = none := by
         have := hfreed (by unfold rmDynamicLease at hr; rw [hr])
         unfold rmDynamicLease at hr; rw [hr] at this; exact this
-      have hsp := allocate_spec hi1.1 hlen hm1
-      have hsp2 := allocate_inv2 hi1 hlen hm1
+      have hsp := allocate_spec hi1.1 hm1
+      have hsp2 := allocate_inv2 hi1 hm1
       rcases hal : allocateLease c mac s1 with ⟨s2, r⟩
       rw [hal] at hsp hsp2
       obtain ⟨_, _, _, hor⟩ := hsp
@@ -438,8 +436,7 @@ theorem handleRelease_inv2 {c : Conf} {s : State} {mac : Bytes} {rp : Bool} {rip
   rw [hr] at hi
   cases e <;> exact Inv2_store hi
 
-theorem addStaticCore_inv2 {c : Conf} {s : State} {mac : Bytes} {ip : Nat} {host : Bytes} (h : Inv2 c s)
-    (hlen : mac.length = 6) : Inv2 c (addStaticCore c mac ip host s).1 := by
+theorem addStaticCore_inv2 {c : Conf} {s : State} {mac : Bytes} {ip : Nat} {host : Bytes} (h : Inv2 c s) : Inv2 c (addStaticCore c mac ip host s).1 := by
   unfold addStaticCore
   have hi1 := rmDynamicLease_inv2 mac ip host h
   have hclean := rmDynLoop_clean c mac ip host s.leases [] s (by intro x hx; cases hx)
@@ -455,7 +452,7 @@ theorem addStaticCore_inv2 {c : Conf} {s : State} {mac : Bytes} {ip : Nat} {host
     cases hadd : addLease c { id := s1.nextId, mac := mac, ip := ip, host := host, static := true, exp := 0 } s1.fresh.2 with
     | error e => exact Inv2_store (Inv2_fresh hi1)
     | ok s2 =>
-      refine Inv2_store (Inv2_add (Inv2_fresh hi1) hadd ?_ ?_ hlen ?_ ?_)
+      refine Inv2_store (Inv2_add (Inv2_fresh hi1) hadd ?_ ?_ ?_ ?_)
       · intro y hy; exact (hcl y hy).2
       · intro y hy; exact (hcl y hy).1
       · simp [State.fresh]
@@ -477,7 +474,7 @@ theorem rmLease_inv2 {c : Conf} {s s' : State} (mac : Bytes) (ip : Nat) (host : 
     exact Inv2_rm _ this
 
 theorem updStaticCore_inv2 {c : Conf} {s : State} {mac : Bytes} {ip : Nat} {host : Bytes} {found : Lease}
-    (h : Inv2 c s) (hlen : mac.length = 6) (hfound : findLease mac s = some found)
+    (h : Inv2 c s) (hfound : findLease mac s = some found)
     (hdh : heldByOther s (s.hosts host) mac = false) (hdi : heldByOther s (s.ips ip) mac = false)
     (hsub : inSubnet c ip = true) : Inv2 c (updStaticCore c found mac ip host s).1 := by
   unfold updStaticCore
@@ -490,7 +487,7 @@ theorem updStaticCore_inv2 {c : Conf} {s : State} {mac : Bytes} {ip : Nat} {host
     cases hadd : addLease c { id := s1.nextId, mac := mac, ip := ip, host := host, static := true, exp := 0 } s1.fresh.2 with
     | error e => exact Inv2_fresh hi1
     | ok s2 =>
-      refine Inv2_store (Inv2_add (Inv2_fresh hi1) hadd ?_ ?_ hlen ?_ ?_)
+      refine Inv2_store (Inv2_add (Inv2_fresh hi1) hadd ?_ ?_ ?_ ?_)
       · intro y hy; exact (hcl y hy).2
       · intro y hy; exact (hcl y hy).1
       · simp [State.fresh]
@@ -501,14 +498,14 @@ theorem updStaticCore_inv2 {c : Conf} {s : State} {mac : Bytes} {ip : Nat} {host
 
 theorem resetLoop_inv2 (O : Oracle) (c : Conf) : ∀ (d : List DLease) (s : State), Inv2 c s →
     (d.map (·.ip)).Nodup → (d.map (·.mac)).Nodup →
-    (∀ x ∈ d, x.static = false → c.start ≤ x.ip ∧ x.ip ≤ c.stop) → (∀ x ∈ d, x.mac.length = 6) →
+    (∀ x ∈ d, x.static = false → c.start ≤ x.ip ∧ x.ip ≤ c.stop) →
     (∀ x ∈ d, ∀ y ∈ s.leases, y.ip ≠ x.ip ∧ y.mac ≠ x.mac) →
     Inv2 c (resetLoop O c d s) := by
   intro d
   induction d with
-  | nil => intro s h _ _ _ _ _; exact h
+  | nil => intro s h _ _ _ _; exact h
   | cons x rest ih =>
-    intro s h hip hmac hpool hlen hfresh
+    intro s h hip hmac hpool hfresh
     rw [List.map_cons, List.nodup_cons] at hip hmac
     unfold resetLoop
     simp only []
@@ -516,11 +513,10 @@ theorem resetLoop_inv2 (O : Oracle) (c : Conf) : ∀ (d : List DLease) (s : Stat
       fun z hz y hy => hfresh z (List.mem_cons_of_mem _ hz) y hy
     cases hadd : addLease c { id := s.nextId, mac := x.mac, ip := x.ip, host := (if x.static = true then x.host else validHost O x.host x.ip), static := x.static, exp := x.exp } s.fresh.2 with
     | error e =>
-      exact ih _ (Inv2_fresh h) hip.2 hmac.2 (fun z hz => hpool z (List.mem_cons_of_mem _ hz))
-        (fun z hz => hlen z (List.mem_cons_of_mem _ hz)) hrest
+      exact ih _ (Inv2_fresh h) hip.2 hmac.2 (fun z hz => hpool z (List.mem_cons_of_mem _ hz)) hrest
     | ok s' =>
       have hi : Inv2 c s' := by
-        refine Inv2_add (Inv2_fresh h) hadd ?_ ?_ (hlen x List.mem_cons_self) ?_ ?_
+        refine Inv2_add (Inv2_fresh h) hadd ?_ ?_ ?_ ?_
         · intro y hy; exact (hfresh x List.mem_cons_self y hy).1
         · intro y hy; exact (hfresh x List.mem_cons_self y hy).2
         · simp [State.fresh]
@@ -528,8 +524,7 @@ theorem resetLoop_inv2 (O : Oracle) (c : Conf) : ∀ (d : List DLease) (s : Stat
           have : y.id < s.nextId := h.1.idLt y hy
           show y.id ≠ s.nextId
           omega
-      refine ih _ hi hip.2 hmac.2 (fun z hz => hpool z (List.mem_cons_of_mem _ hz))
-        (fun z hz => hlen z (List.mem_cons_of_mem _ hz)) ?_
+      refine ih _ hi hip.2 hmac.2 (fun z hz => hpool z (List.mem_cons_of_mem _ hz)) ?_
       intro z hz y hy
       rw [(addLease_leases hadd).1] at hy
       rcases List.mem_append.1 hy with hy | hy
@@ -552,12 +547,12 @@ theorem restart_inv2 {O : Oracle} {c : Conf} {s : State} (h : Inv c s) : Inv2 c 
   | none => simpa [hd] using h0
   | some d =>
     simp only []
-    obtain ⟨d1, d2, d3, d4⟩ := h.disk d hd
-    have := resetLoop_inv2 O c d _ h0 d1 d2 d3 d4 (by intro x _ y hy; simp [State.init] at hy)
+    obtain ⟨d1, d2, d3⟩ := h.disk d hd
+    have := resetLoop_inv2 O c d _ h0 d1 d2 d3 (by intro x _ y hy; simp [State.init] at hy)
     simpa [hd] using this
 
 /-- The hostname index stays complete over every step that is not an instance of R3. -/
-theorem Inv2_step {O : Oracle} {c : Conf} {s : State} {op : Op} (h : Inv2 c s) (hw : op.wf)
+theorem Inv2_step {O : Oracle} {c : Conf} {s : State} {op : Op} (h : Inv2 c s)
     (hno : ¬ R3at O c s op) : Inv2 c (step O c s op).1 := by
   have h0 : Inv2 c { s with stale := [] } := Inv2_congr h rfl rfl rfl rfl rfl rfl
   unfold step
@@ -567,7 +562,7 @@ theorem Inv2_step {O : Oracle} {c : Conf} {s : State} {op : Op} (h : Inv2 c s) (
     simp only []
     split
     · exact h0
-    · exact handleDiscover_inv2 h0 hw
+    · exact handleDiscover_inv2 h0
   | request mac sid rp rip ci hn =>
     simp only []
     split
@@ -577,7 +572,7 @@ theorem Inv2_step {O : Oracle} {c : Conf} {s : State} {op : Op} (h : Inv2 c s) (
     simp only []
     split
     · exact h0
-    · exact handleDecline_inv2 h0 hw
+    · exact handleDecline_inv2 h0
   | release mac rp rip ci =>
     simp only []
     split
@@ -592,7 +587,7 @@ theorem Inv2_step {O : Oracle} {c : Conf} {s : State} {op : Op} (h : Inv2 c s) (
     · exact h0
     split
     · exact h0
-    · exact addStaticCore_inv2 h0 hw
+    · exact addStaticCore_inv2 h0
   | updStatic mac ip hn =>
     simp only []
     unfold updStatic
@@ -607,7 +602,7 @@ theorem Inv2_step {O : Oracle} {c : Conf} {s : State} {op : Op} (h : Inv2 c s) (
         · exact h0
         · next hchk =>
           obtain ⟨h1, h2, _, h4⟩ := updStaticCheck_none hchk
-          exact updStaticCore_inv2 h0 hw hf h1 h2 h4
+          exact updStaticCore_inv2 h0 hf h1 h2 h4
   | rmStatic mac ip hn =>
     simp only []
     unfold rmStatic
@@ -625,14 +620,14 @@ def NoR3 (O : Oracle) (c : Conf) : State → List Op → Prop
   | _, [] => True
   | s, op :: rest => ¬ R3at O c s op ∧ NoR3 O c (step O c s op).1 rest
 
-theorem run_inv2 {O : Oracle} {c : Conf} : ∀ (ops : List Op) (s : State), Inv2 c s → (∀ op ∈ ops, op.wf) →
+theorem run_inv2 {O : Oracle} {c : Conf} : ∀ (ops : List Op) (s : State), Inv2 c s →
     NoR3 O c s ops → Inv2 c (run O c s ops) := by
   intro ops
   induction ops with
-  | nil => intro s h _ _; exact h
+  | nil => intro s h _; exact h
   | cons op rest ih =>
-    intro s h hw hno
+    intro s h hno
     unfold run
-    exact ih _ (Inv2_step h (hw op List.mem_cons_self) hno.1) (fun o ho => hw o (List.mem_cons_of_mem _ ho)) hno.2
+    exact ih _ (Inv2_step h hno.1) hno.2
 
 end AGH.C10
